@@ -104,7 +104,7 @@ theorem inv_retain {ic : Bool} (t : Item ι V) (f : ι → V → Option V) (h : 
 theorem inv_cache (E : Engine) {ic : Bool} (t : Item ι V) (limit : Nat) (level : Option Nat) (h : Inv ic t) :
     ∃ t' n, treeCache E t limit level = some (t', n) ∧ Inv ic t' := by
   obtain ⟨t', n, h1, hs, _⟩ := treeCache_spec E t limit level
-  exact ⟨t', n, h1, by unfold Inv; rw [← inv_strip, hs, inv_strip]; exact h⟩
+  exact ⟨t', n, h1, by unfold Inv; rw [inv_of_treeCache h1]; exact h⟩
 
 /-- The index chosen by the child-selection loop is in range (`Vec::remove` cannot panic). -/
 theorem select_in_range {p : List Char} {rs : List (List Char)} {mx k : Nat}
